@@ -261,7 +261,6 @@ func H_C14_memo_documents() {
 		verif.Assert(w.L.Bal(core.ModuleAddress, nativeDenom).IsZero(), "nothing-left-on-orbiter")
 	} else {
 		verif.Cover("error-ack")
-		verif.Assert(!oneDocument, "well-formed-memo-is-executed")
 		verif.Assert(len(w.Int.reqs) == 0, "refused-packet-is-not-forwarded")
 	}
 }
